@@ -74,11 +74,50 @@ GEL_SITES = [s for s in REGISTRY if s.startswith("gel_")]
 ALL_SITES = list(REGISTRY) + INSTANCE_SITES
 
 GARBAGE = ["random_bytes", "truncated_json", "json_list", "json_string", "json_number", "empty_file", "wrong_types", "header_payload",
-           "delta_without_base", "foreign_json", "huge_version", "gel_garbage", "nested_dir"]
+           "delta_without_base", "foreign_json", "huge_version", "gel_garbage", "nested_dir", "mutated_snapshot", "mutated_snapshot", "mutated_snapshot"]
+
+# a snapshot as the engine writes it; "mutated_snapshot" replaces 1-3 sub-values at random paths by values of another shape
+_TEMPLATE = {"turn": 1, "agent": "Ambrose", "version_etag": "2", "applied": 0, "deltas": [], "schema_version": "v1",
+             "store": {"g0": {"nodes": [{"id": "n0", "label": "river", "attrs": {}}], "edges": [{"id": "e0", "src": "n0", "dst": "n0", "weight": 0.5, "rel": "supports", "attrs": {}}], "meta": {}}},
+             "graph_schema_version": "v1.1",
+             "gel": {"nodes": {"ep00": {"id": "ep00"}, "ep01": {"id": "ep01"}, "ep02": {"id": "ep02"}},
+                     "edges": {"ep01\u2192ep02": {"src": "ep01", "dst": "ep02", "rel": "coact", "weight": 0.225432, "updated_at": None, "attrs": {"last_seen_turn": 0}, "id": "ep01\u2192ep02"},
+                               "ep00\u2192ep02": {"src": "ep00", "dst": "ep02", "rel": "coact", "weight": 0.650648, "updated_at": None, "attrs": {"last_seen_turn": 0}, "id": "ep00\u2192ep02"}},
+                     "meta": {"merges": [], "splits": [], "promotions": [], "concept_nodes_count": 0, "edges_count": 2, "schema": "v1.1"}},
+             "graph": {"nodes_count": 3, "edges_count": 2, "meta": {"last_update": None}}}
+_SHAPES: List[Any] = [None, 5, -1, 0.5, "x", "", [], {}, [1], ["a", "b"], {"a": 1}, True, 1e308, "NaN", [[]], [{}], {"id": 7}, "9" * 50, -0.0, 2**70]
+
+
+def _mutated_snapshot(r) -> bytes:
+    snap = copy.deepcopy(_TEMPLATE)
+
+    def paths(t, pre=()):
+        out = []
+        if isinstance(t, dict):
+            for k, v in t.items():
+                out.append(pre + (k,))
+                out.extend(paths(v, pre + (k,)))
+        elif isinstance(t, list):
+            for i, v in enumerate(t):
+                out.append(pre + (i,))
+                out.extend(paths(v, pre + (i,)))
+        return out
+    for _ in range(r.randint(1, 3)):
+        ps = paths(snap)
+        # the graph-evolution section is what later turns keep reading: bias towards it
+        gel_ps = [p for p in ps if p and p[0] == "gel"]
+        p = r.choice(gel_ps if gel_ps and r.chance(0.6) else ps)
+        cur = snap
+        for k in p[:-1]:
+            cur = cur[k]
+        cur[p[-1]] = copy.deepcopy(r.choice(_SHAPES))
+    return json.dumps(snap).encode()
 
 
 def _garbage(kind: str, r) -> Tuple[str, bytes]:
     name = r.choice(["state_Ambrose.json", "state_x.json", "snap_000007.json", "other.json"])
+    if kind == "mutated_snapshot":
+        return name, _mutated_snapshot(r)
     if kind == "random_bytes":
         return name, r.bytes(r.randint(1, 200))
     if kind == "truncated_json":
